@@ -94,7 +94,10 @@ impl Check for C15 {
             "cut_seeds": (0..g.range(0, 12)).map(|_| g.next() % 1_000_000).collect::<Vec<_>>(), "one_byte_frames": g.chance(8),
             // handler mode: the peer (or the network) stalls for this long after the frame that ends at a seeded
             // cut — fragmentation in time: the rest of a half-delivered datagram arrives much later
-            "pauses": (0..if g.chance(40) { g.range(1, 3) } else { 0 }).map(|_| json!([g.next() % 1_000_000, *g.pick(&[1u64, 200, 4_900, 5_100, 12_000, 31_000, 70_000])])).collect::<Vec<_>>(), "scheme": if g.chance(50) { DEFAULT_SCHEME.to_string() } else { gen_scheme_small(&mut g) }})
+            "pauses": (0..if g.chance(40) { g.range(1, 3) } else { 0 }).map(|_| json!([g.next() % 1_000_000, *g.pick(&[1u64, 200, 4_900, 5_100, 12_000, 31_000, 70_000])])).collect::<Vec<_>>(), "scheme": if g.chance(50) { DEFAULT_SCHEME.to_string() } else { gen_scheme_small(&mut g) },
+            // handler mode: the tunnel ends inside a datagram (prefix and part of the payload delivered, then FIN, a clean
+            // end of the transport, or a reset): nothing may leave for the target that nobody sent
+            "ending": if g.chance(35) { let size = *g.pick(&[2u64, 40, 300, 1_472, 9_000]); json!({"how": *g.pick(&["fin", "fin", "eof", "reset"]), "size": size, "have": g.range(0, size - 1), "prefix_bytes": *g.pick(&[2u64, 2, 2, 1]), "split": g.chance(50)}) } else { Value::Null }})
     }
     fn horizon(&self, _p: &Value) -> Duration {
         Duration::from_secs(5_000)
@@ -302,6 +305,44 @@ impl Check for C15 {
                         total += down.len();
                     }
                 }
+                if out.viols.is_empty() && plan["ending"].is_object() && !first_round {
+                    let e = &plan["ending"];
+                    let size = e["size"].as_u64().unwrap_or(40) as usize;
+                    let have = std::cmp::min(e["have"].as_u64().unwrap_or(0) as usize, size - 1);
+                    let pb = e["prefix_bytes"].as_u64().unwrap_or(2) as usize;
+                    let mut part: Vec<u8> = (size as u16).to_be_bytes()[..pb].to_vec();
+                    if pb == 2 {
+                        part.extend(content(0xE15, have));
+                    }
+                    let mut frames = Vec::new();
+                    if e["split"].as_bool().unwrap_or(false) && part.len() > 2 {
+                        frames.extend(rc::encode(rc::PSH, 1, &part[..2]));
+                        frames.extend(rc::encode(rc::PSH, 1, &part[2..]));
+                    } else {
+                        frames.extend(rc::encode(rc::PSH, 1, &part));
+                    }
+                    let how = e["how"].as_str().unwrap_or("fin");
+                    if how == "fin" {
+                        frames.extend(rc::encode(rc::FIN, 1, b""));
+                    }
+                    let _ = sr.to_server.write_all(&frames).await;
+                    let _ = sr.to_server.flush().await;
+                    match how {
+                        "eof" => {
+                            let _ = sr.to_server.shutdown().await;
+                        }
+                        "reset" => {
+                            sleep(Duration::from_millis(50)).await;
+                            sr.c2s.set_read_fault(sr.c2s.total_read(), anytls_simnet::pipe::ReadFault::Reset);
+                        }
+                        _ => {}
+                    }
+                    anytls_simnet::world::fault_fired("tunnel.ends_inside_a_datagram");
+                    let stray = recv_n(&tsock, 1, 5).await;
+                    if let Some((d, _)) = stray.first() {
+                        out.viol("boundaries", format!("stream->target:datagram-nobody-sent:{}", how), format!("the tunnel ended ({}) after the prefix of a {}-byte datagram and {} of its bytes; the target received a {}-byte datagram", how, size, have, d.len()));
+                    }
+                }
                 let _ = Arc::new(sr.server);
             }
             out.nontrivial = total >= 1;
@@ -323,7 +364,7 @@ impl Check for C15 {
         out
     }
     fn rule(&self) -> &'static str {
-        "one case = 1-6 rounds of 0-3 datagrams towards the target and 0-3 replies, sizes from {1,2,3,254-258,1471-1473,8190-8194,65000,65505-65507,random}, IPv4 or IPv6 target, boundary ports; mode system (55%): application socket through the real Client::create_udp_proxy, real sessions over rustls, real Server and handle_udp_over_tcp to a simulated target socket, in 30% of the cases the application continues from a new socket (new source port) before a seeded round and the replies must follow it; mode handler (45%): the real handle_udp_over_tcp behind a real server Session fed by a scripted peer that cuts the length-prefixed byte stream into PSH frames at seeded offsets (always inside the first prefix, sometimes one byte per frame) over a fragmenting transport, in 40% of the cases with 1-3 pauses of 1 ms .. 70 s after the frame ending at a seeded cut (the rest of a half-delivered datagram arrives much later); simulated UDP is lossless and ordered so every missing, merged, split or altered datagram is the tunnel's doing; non-trivial = at least one datagram was exchanged; distinct = distinct (plan hash, poll-order fingerprint)"
+        "one case = 1-6 rounds of 0-3 datagrams towards the target and 0-3 replies, sizes from {1,2,3,254-258,1471-1473,8190-8194,65000,65505-65507,random}, IPv4 or IPv6 target, boundary ports; mode system (55%): application socket through the real Client::create_udp_proxy, real sessions over rustls, real Server and handle_udp_over_tcp to a simulated target socket, in 30% of the cases the application continues from a new socket (new source port) before a seeded round and the replies must follow it; mode handler (45%): the real handle_udp_over_tcp behind a real server Session fed by a scripted peer that cuts the length-prefixed byte stream into PSH frames at seeded offsets (always inside the first prefix, sometimes one byte per frame) over a fragmenting transport, in 40% of the cases with 1-3 pauses of 1 ms .. 70 s after the frame ending at a seeded cut (the rest of a half-delivered datagram arrives much later), and in 35% of the cases the tunnel ends inside a last datagram (FIN, clean end or reset of the transport after the prefix and part of the payload): nothing nobody sent may reach the target; simulated UDP is lossless and ordered so every missing, merged, split or altered datagram is the tunnel's doing; non-trivial = at least one datagram was exchanged; distinct = distinct (plan hash, poll-order fingerprint)"
     }
     fn real_components(&self) -> Vec<&'static str> {
         vec!["Client::create_udp_proxy / udp_proxy_loop / encode_udp_packet / read_udp_packet (client)", "handle_udp_over_tcp / read_initial_request / stream_to_udp / udp_to_stream (server)", "Session, Stream, StreamReader::read_exact, codec, padding, rustls (system mode)"]
